@@ -136,6 +136,7 @@ func (t T) lostViaMethod() int { t.bump(); return 0 }
 func (t T) lostAddr(f func(*int)) int { f(&t.n); return t.n }
 func (t T) with(n int) T { t.n = n; return t }
 func (t T) through() { *t.p = 1 }
+func (t T) scratch() int { t.n = 7; return t.n * 2 }
 `
 
 // LostUpdate examines every method with a by-value receiver of a struct type
@@ -162,7 +163,7 @@ func LostUpdate(c *core.Ctx, rule string, pkgPaths ...string) {
 		c.Undecidedf(rule, "control", token.NoPos, "positive control: the rule fires on accepted idioms: %v", keysOf(got))
 		return
 	}
-	c.Okf(rule, "control", token.NoPos, "positive control: fires on a lost assignment, a lost update through a pointer-receiver method and a lost update through &field; silent on a with-er and on a write through a pointer field")
+	c.Okf(rule, "control", token.NoPos, "positive control: fires on a lost assignment, a lost update through a pointer-receiver method and a lost update through &field; silent on a with-er, on a write through a pointer field and on a field of the copy used as the method's own scratch")
 	for _, pk := range pkgsOf(c, rule, pkgPaths) {
 		u := unitOf(c, pk)
 		n, fs := lostUpdate(u)
@@ -314,10 +315,11 @@ func lostUpdate(u *unit) (int, []finding) {
 			}
 			n++
 			type write struct {
-				pos  token.Pos
-				end  token.Pos
-				what string
-				how  string
+				pos   token.Pos
+				end   token.Pos
+				what  string
+				how   string
+				plain bool // x.f = v (not a read-modify-write): the copy may serve as the method's scratch
 			}
 			var writes []write
 			ast.Inspect(fd.Body, func(nd ast.Node) bool {
@@ -325,17 +327,17 @@ func lostUpdate(u *unit) (int, []finding) {
 				case *ast.AssignStmt:
 					for _, l := range x.Lhs {
 						if fs, ok := purePath(u.info, l, rv); ok && len(fs) > 0 {
-							writes = append(writes, write{x.Pos(), x.End(), fs[len(fs)-1], "assigns field " + strings.Join(fs, ".")})
+							writes = append(writes, write{x.Pos(), x.End(), fs[len(fs)-1], "assigns field " + strings.Join(fs, "."), x.Tok == token.ASSIGN})
 						}
 					}
 				case *ast.IncDecStmt:
 					if fs, ok := purePath(u.info, x.X, rv); ok && len(fs) > 0 {
-						writes = append(writes, write{x.Pos(), x.End(), fs[len(fs)-1], "modifies field " + strings.Join(fs, ".")})
+						writes = append(writes, write{x.Pos(), x.End(), fs[len(fs)-1], "modifies field " + strings.Join(fs, "."), false})
 					}
 				case *ast.UnaryExpr:
 					if x.Op == token.AND {
 						if fs, ok := purePath(u.info, x.X, rv); ok && len(fs) > 0 {
-							writes = append(writes, write{x.Pos(), x.End(), fs[len(fs)-1], "hands out the address of field " + strings.Join(fs, ".") + " (the callee stores through it)"})
+							writes = append(writes, write{x.Pos(), x.End(), fs[len(fs)-1], "hands out the address of field " + strings.Join(fs, ".") + " (the callee stores through it)", false})
 						}
 					}
 				case *ast.CallExpr:
@@ -343,7 +345,7 @@ func lostUpdate(u *unit) (int, []finding) {
 						if id, ok := ast.Unparen(sel.X).(*ast.Ident); ok && u.info.Uses[id] == rv {
 							if callee, ok := u.info.Uses[sel.Sel].(*types.Func); ok {
 								if fld, isW := writers[callee]; isW {
-									writes = append(writes, write{x.Pos(), x.End(), callee.Name(), "calls the pointer-receiver method " + callee.Name() + ", which updates field " + fld})
+									writes = append(writes, write{x.Pos(), x.End(), callee.Name(), "calls the pointer-receiver method " + callee.Name() + ", which updates field " + fld, false})
 								}
 							}
 						}
@@ -388,6 +390,16 @@ func lostUpdate(u *unit) (int, []finding) {
 				wholeUses = append(wholeUses, id.Pos())
 				return true
 			})
+			// later reads of a field of the copy (by last field name)
+			fieldReads := map[string][]token.Pos{}
+			ast.Inspect(fd.Body, func(nd ast.Node) bool {
+				if sel, ok := nd.(*ast.SelectorExpr); ok {
+					if fs, ok := purePath(u.info, sel, rv); ok && len(fs) > 0 {
+						fieldReads[fs[len(fs)-1]] = append(fieldReads[fs[len(fs)-1]], sel.Pos())
+					}
+				}
+				return true
+			})
 			// loops: a use anywhere inside a loop that contains the write counts as "after"
 			loopOf := func(pos token.Pos) (token.Pos, token.Pos) {
 				var lo, hi token.Pos
@@ -409,6 +421,14 @@ func lostUpdate(u *unit) (int, []finding) {
 				for _, p := range wholeUses {
 					if p >= w.end || (lo != token.NoPos && p >= lo && p < hi && (p < w.pos || p >= w.end)) {
 						kept = true
+					}
+				}
+				if w.plain {
+					// the masking idiom: a field of the copy is overwritten and then read in the same method
+					for _, p := range fieldReads[w.what] {
+						if p >= w.end {
+							kept = true
+						}
 					}
 				}
 				if kept {
